@@ -259,6 +259,8 @@ def main_check(modname, tier, seed, extra=None):
     print("%s %s: %d configurations, %d paths, %d obligations: %d unsat (%d constant-folded), %d sat, %d unknown; solver %.1fs; wall %.1fs"
           % (prop, tier, len(cfgs), tot["paths"], tot["obligations"], tot["unsat"], tot["trivial"], tot["sat"], tot["unknown"],
              sum(r["solver_s"] for r in results), wall))
+    slow = sorted(results, key=lambda r: -r.get("wall_s", 0))[:4]
+    print("  slowest: " + "; ".join("%s %.1fs (%d paths)" % (r["id"][:70], r.get("wall_s", 0), r["paths"]) for r in slow))
     for k, v in sorted(extra_info.get("summary", {}).items()):
         print("  %s: %s" % (k, v))
     if violations:
